@@ -128,7 +128,7 @@ def contiguous_bounds(rng, vals):
 # --------------------------------------------------------------------------------------------
 # CF 1-D
 
-def cf1d(rng, *, ny=None, nx=None, bounds=None, as_coords=None, dim_names=None, min_len=2):
+def cf1d(rng, *, ny=None, nx=None, bounds=None, as_coords=None, dim_names=None, min_len=2, bad_bounds=None):
     ny = ny or rng.randint(min_len, 6)
     nx = nx or rng.randint(min_len, 6)
     if bounds is None:
@@ -158,6 +158,16 @@ def cf1d(rng, *, ny=None, nx=None, bounds=None, as_coords=None, dim_names=None, 
         variables['lat_bnds'] = ((ydim, 'bnds'), numpy.array(lat_b))
         variables['lon_bnds'] = ((xdim, 'bnds'), numpy.array(lon_b))
         spec['bounds'] = {'lat': lat_b, 'lon': lon_b}
+        if bad_bounds:
+            # bounds variables the convention must refuse (wrong layout): the cells are then derived from the centres
+            if bad_bounds == 'transposed':
+                variables['lat_bnds'] = (('bnds', ydim), numpy.array(lat_b).T)
+                variables['lon_bnds'] = (('bnds', xdim), numpy.array(lon_b).T)
+            else:
+                variables['lat_bnds'] = ((ydim, 'bnds'), numpy.column_stack([numpy.array(lat_b), numpy.array(lat_b)[:, :1]]))
+                variables['lon_bnds'] = ((xdim, 'bnds'), numpy.column_stack([numpy.array(lon_b), numpy.array(lon_b)[:, :1]]))
+            spec['bounds'] = None
+            spec['bad_bounds'] = bad_bounds
     coordvars = {latname: ((ydim,), numpy.array(lat), lat_attrs), lonname: ((xdim,), numpy.array(lon), lon_attrs)}
     if as_coords:
         ds = xarray.Dataset(data_vars=variables, coords=coordvars)
@@ -168,7 +178,7 @@ def cf1d(rng, *, ny=None, nx=None, bounds=None, as_coords=None, dim_names=None, 
             spec['as_coords'] = True
         else:
             ds = xarray.Dataset(data_vars={**coordvars, **variables})
-    spec['label'] = f'cf1d {ny}x{nx} bounds={bool(bounds)}'
+    spec['label'] = f'cf1d {ny}x{nx} bounds={bool(bounds)}' + (f' refused-bounds={bad_bounds}' if bad_bounds else '')
     spec['kinds'] = {'face': [ydim, xdim]}
     spec['kind_order'] = ['face']
     return DS('cf1d', ds, spec)
@@ -217,7 +227,7 @@ def hole_pattern(rng, ny, nx, kind=None):
     return holes, kind
 
 
-def cf2d(rng, *, ny=None, nx=None, bounds=None, holes=None, shoc_simple=False, as_coords=None, invalid=None):
+def cf2d(rng, *, ny=None, nx=None, bounds=None, holes=None, shoc_simple=False, as_coords=None, invalid=None, bad_bounds=None):
     ny = ny or rng.randint(1, 5)
     nx = nx or rng.randint(1, 5)
     if bounds is None:
@@ -245,6 +255,8 @@ def cf2d(rng, *, ny=None, nx=None, bounds=None, holes=None, shoc_simple=False, a
             lat_b[:, :, c] = lat + (ay * di + by * dj) / 2 / F8
         lon_b[hole] = numpy.nan
         lat_b[hole] = numpy.nan
+        if bad_bounds:
+            invalid = False
         if invalid is None:
             invalid = rng.random() < 0.25
         if invalid:
@@ -261,6 +273,20 @@ def cf2d(rng, *, ny=None, nx=None, bounds=None, holes=None, shoc_simple=False, a
         spec['bounds'] = True
         spec['lon_b'] = lon_b
         spec['lat_b'] = lat_b
+        if bad_bounds:
+            # bounds variables the convention must refuse (wrong layout): the cells are then derived from the centres
+            perm = {'xy_nv': (1, 0, 2), 'nv_yx': (2, 0, 1), 'nv_xy': (2, 1, 0), 'lat_only_xy_nv': (1, 0, 2)}.get(bad_bounds)
+            for nm, arr in (('lon_bnds', lon_b), ('lat_bnds', lat_b)):
+                if bad_bounds == 'lat_only_xy_nv' and nm == 'lon_bnds':
+                    continue            # the longitude bounds stay usable: the two coordinates are decided independently
+                if perm:
+                    dims3 = (ydim, xdim, 'nv')
+                    variables[nm] = (tuple(dims3[k] for k in perm), numpy.transpose(arr, perm))
+                else:       # five vertices per cell
+                    variables[nm] = ((ydim, xdim, 'nv'), numpy.concatenate([arr, arr[:, :, :1]], axis=2))
+            spec['bounds'] = None
+            spec['lon_b'] = spec['lat_b'] = None
+            spec['bad_bounds'] = bad_bounds
     lon = lon.copy()
     lat = lat.copy()
     lon[hole] = numpy.nan
@@ -276,7 +302,8 @@ def cf2d(rng, *, ny=None, nx=None, bounds=None, holes=None, shoc_simple=False, a
     else:
         ds = xarray.Dataset(data_vars={**coordvars, **variables}, attrs=attrs)
     spec.update({'latname': latname, 'lonname': lonname, 'lat': lat, 'lon': lon, 'hole': hole,
-                 'label': f'{"shoc_simple" if shoc_simple else "cf2d"} {ny}x{nx} bounds={bool(bounds)} holes={hole_kind}',
+                 'label': f'{"shoc_simple" if shoc_simple else "cf2d"} {ny}x{nx} bounds={bool(bounds)} holes={hole_kind}'
+                          + (f' refused-bounds={bad_bounds}' if bad_bounds else ''),
                  'kinds': {'face': [ydim, xdim]}, 'kind_order': ['face']})
     return DS('shoc_simple' if shoc_simple else 'cf2d', ds, spec)
 
